@@ -69,6 +69,18 @@ def gen_cases(rng, tier):
         cases.append({"kind": "reth", "n": n, "npol": 1, "sps": g.get("sps"), "R": g.get("R"), "gv": g,
                       "D": rng.uniform(-1, 1) * 2.0 / (np.pi * _fs_of(g) * 1e-12) ** 2,
                       "noise": False, "seed": rng.getrandbits(32)})
+    # a transparent medium: D = 0 and D = -0.0 (an exactly compensated link) with retH — still a (signal, H) pair, H = 1
+    for n, npol, D in [(8, 1, 0.0), (9, 2, -0.0), (16, 2, 0.0)]:
+        g = rng.choice(gvs)
+        cases.append({"kind": "reth", "n": n, "npol": npol, "sps": g.get("sps"), "R": g.get("R"), "gv": g, "D": D,
+                      "noise": False, "seed": rng.getrandbits(32)})
+    # pure third-order dispersion (zero-dispersion wavelength): beta_2 exactly 0, beta_3 not
+    for n, npol in [(33, 1), (64, 2)]:
+        g = rng.choice(gvs)
+        fs = _fs_of(g)
+        cases.append({"kind": "fiber", "n": n, "npol": npol, "sps": g.get("sps"), "R": g.get("R"), "gv": g, "dark": None, "alpha": rng.choice([0.0, 0.2]),
+                      "b2": 0.0, "b3": rng.choice([-1, 1]) * 1.0 * 6.0 / (np.pi * fs * 1e-12) ** 3 / 20.0, "L": 20.0, "L2": 7.0,
+                      "noise": False, "seed": rng.getrandbits(32), "dtype": "complex"})
     cases.append({"kind": "badtype", "n": 4, "npol": 1, "sps": 16, "R": 1e9, "noise": False, "seed": 1})
     rng.shuffle(cases)
     return cases
@@ -142,7 +154,14 @@ def run_impl(case):
                     res["status"] = "ok"
                     return res
                 if case["kind"] == "reth":
-                    y, H = DM(x, case["D"], retH=True)
+                    r_ = DM(x, case["D"], retH=True)
+                    if not (isinstance(r_, tuple) and len(r_) == 2):
+                        res.update(status="ok", reth_not_pair=type(r_).__name__, H=[], inp=_rows(x.signal), out=_rows(getattr(r_, "signal", x.signal)))
+                        return res
+                    y, H = r_
+                    rp = DM(x, case["D"], True)                     # retH passed positionally
+                    res["positional_same"] = bool(isinstance(rp, tuple) and len(rp) == 2 and np.array_equal(rp[0].signal, y.signal) and np.array_equal(rp[1], H))
+                    res["new_object"] = bool(y is not x and not np.shares_memory(y.signal, x.signal))
                     res.update(status="ok", H=[[float(z.real), float(z.imag)] for z in H], inp=_rows(x.signal), out=_rows(y.signal))
                     return res
                 if case["kind"] == "dm":
@@ -155,6 +174,9 @@ def run_impl(case):
                 else:
                     kw = dict(alpha=case["alpha"], beta_2=case["b2"], beta_3=case["b3"])
                     y = FIBER(x, case["L"], **kw)
+                    # the documented positional order FIBER(input, length, alpha, beta_2, beta_3, gamma) must mean the same
+                    yp = FIBER(x, case["L"], case["alpha"], case["b2"], case["b3"], 0.0)
+                    res["positional_same"] = bool(np.array_equal(yp.signal, y.signal))
                     y2 = FIBER(y, case["L2"], **kw)
                     ysum = FIBER(x, case["L"] + case["L2"], **kw)
                     res["add_err"] = float(np.max(np.abs(y2.signal - ysum.signal)))
@@ -254,7 +276,13 @@ def oracle(case, res):
     o = np.array([[complex(p, q) for p, q in row] for row in res["out"]])
     scale = max(1.0, float(np.max(np.abs(a))))
     w = 2 * np.pi * np.fft.fftfreq(n) * fs
+    if res.get("positional_same") is False:
+        v.append(("C07:positional", f"{case['kind']}: the call with the documented positional argument order differs from the keyword call (n={n})"))
     if case["kind"] == "reth":
+        if res.get("reth_not_pair"):
+            return v + [("C07:retH", f"DM(x, D={case['D']!r}, retH=True) returned a {res['reth_not_pair']}, not the (signal, H) pair")]
+        if res.get("new_object") is False:
+            v.append(("C07:retH", f"DM(x, D={case['D']!r}, retH=True) handed back its input object / buffer instead of a new signal"))
         Href = np.fft.fftshift(np.exp(-1j * w ** 2 * case["D"] * 1e-24 / 2))
         H = np.array([complex(p, q) for p, q in res["H"]])
         if H.shape != Href.shape or not (np.max(np.abs(H - Href)) <= 1e-9):
